@@ -89,7 +89,7 @@ def run_mutant(prop, patch, meta):
         patches = patch if isinstance(patch, list) else [patch]
         patch = patches[-1]
         for one in patches:
-            r = subprocess.run(["patch", "-p1", "-s", "--no-backup-if-mismatch", "-i", one], cwd=d, stdout=subprocess.PIPE, stderr=subprocess.STDOUT, text=True)
+            r = subprocess.run(["patch", "-p1", "-s", "-E", "--no-backup-if-mismatch", "-i", one], cwd=d, stdout=subprocess.PIPE, stderr=subprocess.STDOUT, text=True)
             if r.returncode != 0:
                 return {"patch": os.path.relpath(patch, VERIF), "status": "stale (does not apply to the current tree)"}
         r = subprocess.run([os.path.join(VERIF, "check"), prop, "--repo", d, "--tier", "quick"], cwd=VERIF, stdout=subprocess.PIPE, stderr=subprocess.STDOUT, text=True,
